@@ -6,6 +6,7 @@
 import GojaModel.C20.Model
 import GojaModel.Generated.C20_Flags
 import GojaModel.Generated.C20_Routing
+import GojaModel.Generated.C20_Guards
 namespace GojaModel.C20
 
 /-- generated = model, for every state and every character. -/
@@ -27,5 +28,26 @@ theorem tie_findRoute : ∀ (a b c d e f g : Bool),
     evalNode (RouteIn.env ⟨a, b, c, d, e, f, g⟩) GojaModel.Generated.C20.findTree = findRoute ⟨a, b, c, d, e, f, g⟩ := by
   intro a b c d e f g
   cases a <;> cases b <;> rfl
+
+/-- The guard expressions the protocol / fast-path models were transcribed from (Model.lean: `getLastIndex`,
+`execRegexp` — range test `index ≤ n`, match test incl. the sticky position test, write-back under g ∨ y of the
+match END —, `fastGlobalMatches` / replace (sticky ⇒ generic), `fastSearch` (lastIndex restored on every path),
+`fastSplitLoop` (which empty matches do not split)). -/
+def expectedGuards : List (String × String) := [
+  ("getLastIndex.zero", "!r.pattern.global && !r.pattern.sticky"),
+  ("execRegexp.range", "index >= 0 && index <= int64(target.Length())"),
+  ("execRegexp.writeBack", "r.pattern.global || r.pattern.sticky"),
+  ("execRegexp.ifMatch", "match"),
+  ("execRegexp.newLastIndex", "newLastIndex = int64(result.indexes[1])"),
+  ("execRegexp.match", "len(result.indexes) > 0 && (!r.pattern.sticky || int64(result.indexes[0]) == index)"),
+  ("stdMatcher.generic", "rx == nil || (rx.pattern.global && rx.pattern.sticky)"),
+  ("stdReplacer.generic", "rx == nil || rx.pattern.sticky"),
+  ("stdSearch.generic", "rx == nil"),
+  ("stdSearch.restoreBeforeNoMatchReturn", "true"),
+  ("stdSplitter.skipEmpty", "result.indexes[0] == lastIndex || result.indexes[0] == targetLength")
+]
+
+/-- the guards regenerated from the Go source are the ones the model transcribes -/
+theorem tie_guards : GojaModel.Generated.C20.guards = expectedGuards := by decide
 
 end GojaModel.C20
